@@ -18,6 +18,13 @@ CHECKS = {
     },
 }
 
+CHECKS["C02"] = {
+    "technique": "MIR dataflow: guard facts dominate pointer reinterpretation (exact-extent proof) + delegation, signature-region and aggregate-position rules",
+    "text": "Static analysis of the polymorphic MIR (length N symbolic, so the verdict covers every N and T): the view constructors return (address of self, N elements); at each slice-to-array reborrow the dominating branch facts prove len == N exactly (a `<`/`>`/`>=` guard is reported), the rejecting exits are reached only under len != N, and the success value is the source pointer itself; [T; U] conversions have equal symbolic sizes under the Const<U>: IntoArrayLength<ArrayLength = N> clause; the trait forms delegate to those; the 24 tuple impls keep operand i at position i; every returned reference's region and mutability is tied to its source parameter. A sweep applies the exact-extent rule to any other slice-derived reborrow in the crate.",
+    "design_ref": "DESIGN.md §3 C02",
+    "note": TRUST + " 'A write through one view is seen through all others' is entailed by same address + same extent and is not separately observed.",
+}
+
 NOT_APPLICABLE = {}
 
 PENDING = "check under construction in this round; see DESIGN.md"
